@@ -7,6 +7,7 @@ import (
 	"hash"
 	"os"
 	"path/filepath"
+	"runtime"
 	"sort"
 	"sync"
 	"sync/atomic"
@@ -327,8 +328,32 @@ func logJSON(l *evLog, full bool) []interface{} {
 	return out
 }
 
-// hSync: one or more transfers of (possibly edited) source into the same destination.
+// hSync: a transfer of the source into the destination; with "schedules" the same transfer is repeated from the
+// same prior destination under each schedule (stream capacity, delays, overlap window, GOMAXPROCS).
 func hSync(o Op) map[string]interface{} {
+	scheds := o.arr("schedules")
+	if len(scheds) == 0 {
+		return syncOnce(o, nil)
+	}
+	runs := []interface{}{}
+	var first map[string]interface{}
+	for _, sc := range scheds {
+		r := syncOnce(o, Op(sc.(map[string]interface{})))
+		if first == nil {
+			first = r
+		}
+		runs = append(runs, r)
+	}
+	out := map[string]interface{}{"runs": runs}
+	for _, k := range []string{"view", "before", "err"} {
+		if v, ok := first[k]; ok {
+			out[k] = v
+		}
+	}
+	return out
+}
+
+func syncOnce(o Op, sched Op) map[string]interface{} {
 	dir := newScratch("sync")
 	defer os.RemoveAll(dir)
 	dest := filepath.Join(dir, "x", "y", "dest")
@@ -339,7 +364,7 @@ func hSync(o Op) map[string]interface{} {
 		return map[string]interface{}{"err": "mktree dst: " + err.Error()}
 	}
 	log := &evLog{}
-	fs, _, view, err := buildSource(o, dir, log)
+	fs, mfs, view, err := buildSource(o, dir, log)
 	if err != nil {
 		return map[string]interface{}{"err": "source: " + err.Error()}
 	}
@@ -348,6 +373,15 @@ func hSync(o Op) map[string]interface{} {
 		return map[string]interface{}{"err": "snapshot: " + err.Error()}
 	}
 	xo := parseXferOpts(Op(o["opt"].(map[string]interface{})))
+	if sched != nil {
+		xo.cfg = streamCfg{Cap: sched.num("cap"), DelayUS: sched.num("delay"), Window: sched.num("window"), Seed: int64(sched.num("seed"))}
+		if p := sched.num("procs"); p > 0 {
+			defer runtime.GOMAXPROCS(runtime.GOMAXPROCS(p))
+		}
+		if mfs != nil {
+			mfs.readSizes = intList(sched.arr("readsizes"))
+		}
+	}
 	res := runXfer(fs, dest, xo, log)
 	after, err := snapshot(dest, true)
 	if err != nil {
